@@ -462,4 +462,4 @@ RULES = [
 RULES.append(('13.P', 'panic sites: no reviewed function that parses / handles untrusted input gained an unwrap / expect / explicit panic / bounds-checked index / length-checked copy / division (rules/provenance.py; panic freedom itself is not decided)', lambda F: provenance.panics_for_property(F, 'C13', '13.P')))
 RULES.append(('13.G', 'guard census: no reviewed call of a workspace function and no reviewed mutation of a stored collection gained a controlling branch condition (an added `&& cond`, early return / continue, more specific match arm in front of an act); counts per call site, name free (rules/guards.py)', lambda F: guards.for_property(F, 'C13', '13.G')))
 RULES.append(('13.I', 'parse-position independence: in every function reading from a reader, no stream read is skipped under a condition computed from local state (self, another argument) while parsing goes on - the bytes a message decoder consumes depend on the message alone (rules/parsepos.py)', lambda F: parsepos.rule(F, '13.I', lambda n, r: re.search(r'ln/msgs\\.rs$|ln/wire\\.rs$|onion_message/|util/ser\\.rs$|ln/onion_utils\\.rs$|blinded_path/', r['file']) is not None and 'ser_macros' not in r['file'], 7, 30)))
-RULES.append(('13.N', 'arithmetic census: per reviewed function the number of operations per (group: add/sub, mul, div, rem, shift, bit, min, max, div_ceil ...; flavour: plain / checked / saturating / wrapping) is unchanged - a dropped or added `+ 1`, a rounding direction, saturating for checked, min for max (rules/arith.py; value arithmetic itself is not decided)', lambda F: arith.for_property(F, 'C13', '13.N')))
+RULES.append(('13.N', 'arithmetic census: per reviewed function the set of operation kinds (group: add/sub, mul, div, rem, shift, bit, min, max, div_ceil ...; flavour: plain / checked / saturating / wrapping) keeps its kinds: no reviewed function lost or gained a kind of arithmetic altogether - a rounding direction (`/` for div_ceil), saturating for checked, min for max (rules/arith.py; counts and value arithmetic itself are not judged)', lambda F: arith.for_property(F, 'C13', '13.N')))
